@@ -268,6 +268,8 @@ def evaluate(ctx, cases, modes, res):
                 res.disagreement(case, got, model[i])
         res.count('traces_with_memoryerror', any(o[0] == 'E' for o in out))
         res.count('messages_delivered', sum(o[0] == 'M' for o in out))
+        res.count('delivered_over_limit (final-chunk clause exercised)',
+                  sum(1 for o in out if lim and o[0] == 'M' and len(o[1]) > lim))
         res.count('cases_with_empty_chunk', any(len(c) == 0 for c in ch))
         if len(ch) >= 2 and any(NL in x for x in ch):
             res.nontrivial((lim, ch))
